@@ -237,3 +237,65 @@ func simultaneousFirstOpens(c *ctx) string {
 	c.Case("simultaneous-first-opens", true)
 	return ""
 }
+
+// C16: several vector fields of one segment cached at once and expiring in the same pass.
+func twoFieldsExpireTogether(c *ctx) string {
+	o := genVecOpts(c)
+	o.nVecFs = 2
+	var b zh.Batch
+	for d := 0; d < 12; d++ {
+		doc := zh.Doc{Fields: []zh.Field{zh.IDField(fmt.Sprintf("T%04d", d))}}
+		for _, f := range vecFieldNames[:2] {
+			doc.Fields = append(doc.Fields, zh.Field{Name: f, Typ: 'v', Vec: &zh.VecDef{Dims: o.dims[f], Sim: o.sim[f], Opt: o.opt[f], Data: randVec(c, o.dims[f])}})
+		}
+		b = append(b, doc)
+	}
+	sb, _, err := zh.Build(b, 1026)
+	if err != nil {
+		return "build failed: " + err.Error()
+	}
+	path := zh.TmpPath("c16t")
+	if err := zap.PersistSegmentBase(sb, path); err != nil {
+		return "persist failed: " + err.Error()
+	}
+	sb.Close()
+	defer os.Remove(path)
+	rounds := c.n(12, 200)
+	for r := 0; r < rounds; r++ {
+		waitLive(0)
+		baseLive, baseDbl, baseUac := engineCounters()
+		s, err := zh.Plugin.Open(path)
+		if err != nil {
+			return "open failed: " + err.Error()
+		}
+		seg := s.(*zap.Segment)
+		for _, f := range vecFieldNames[:2] {
+			if _, bad := runSearch(seg, f, randVec(c, o.dims[f]), 3, nil, true, nil, false); bad != "" {
+				seg.Close()
+				return bad
+			}
+		}
+		if live := waitLive(baseLive + 2); live != baseLive+2 {
+			seg.Close()
+			return fmt.Sprintf("after searching both vector fields %d native indexes are live, want 2 (one per cached field)", live-baseLive)
+		}
+		// both entries are idle and unreferenced: expiry passes until they are gone
+		for k := 0; k < 200 && zap.VerifVectorCacheLen(&seg.SegmentBase) > 0; k++ {
+			zap.VerifVectorCacheTick(&seg.SegmentBase)
+		}
+		cached := zap.VerifVectorCacheLen(&seg.SegmentBase)
+		live := waitLive(baseLive + cached)
+		_, dbl, uac := engineCounters()
+		c.Count("two_field_expiry_rounds")
+		if live != baseLive+cached || dbl != baseDbl || uac != baseUac {
+			seg.Close()
+			return fmt.Sprintf("two vector fields were cached and searched, their handles closed, expiry passes run until the cache holds %d entries: %d native indexes are live (want %d), %d double closes, %d uses after close", cached, live-baseLive, cached, dbl-baseDbl, uac-baseUac)
+		}
+		seg.Close()
+		if live := waitLive(baseLive); live != baseLive {
+			return fmt.Sprintf("%d native indexes remain after the segment was closed", live-baseLive)
+		}
+	}
+	c.Case("two-fields-expire-together", true)
+	return ""
+}
